@@ -340,7 +340,8 @@ func runC12(c *core.Ctx) {
 	r := c.Rng
 	specs := []cfg.Spec{{Ext: cfg.ExtCore}, {Ext: cfg.ExtCore, AutoHeadingID: true, Attribute: true}, {Ext: cfg.ExtGFM}, {Ext: cfg.ExtGFM, Attribute: true, XHTML: true},
 		{Ext: cfg.ExtAll, AutoHeadingID: true, Attribute: true}, {Ext: cfg.ExtAll, Unsafe: true, HardWraps: true}, {Ext: cfg.ExtFootnote}, {Ext: cfg.ExtDefList, Attribute: true},
-		{Ext: cfg.ExtTypographer}, {Ext: cfg.ExtCJKSimple}, {Ext: cfg.ExtCJKCSS3, XHTML: true}, {Ext: cfg.ExtCJKEscSpace, AutoHeadingID: true}}
+		{Ext: cfg.ExtTypographer}, {Ext: cfg.ExtCJKSimple}, {Ext: cfg.ExtCJKCSS3, XHTML: true}, {Ext: cfg.ExtCJKEscSpace, AutoHeadingID: true},
+		{Ext: cfg.ExtAll, Rich: true, AutoHeadingID: true, Attribute: true}, {Ext: cfg.ExtGFM, Rich: true, Unsafe: true, XHTML: true}}
 	spares := []int{0, 1, 64}
 	if c.Shard == 0 {
 		for _, sd := range c12Seeds {
